@@ -1,5 +1,5 @@
 (* C03: the prompt parser, manual = flag answer by answer, and what each strategy can and cannot do. *)
-From Tempren Require Import Base.Str Py.PathLib FS.Model FS.Lemmas Pipe.Pipeline Pipe.Safety.
+From Tempren Require Import Base.Str Py.PathLib FS.Model FS.Lemmas Pipe.Pipeline Pipe.BacklogVerify Pipe.Safety.
 Open Scope N_scope.
 
 (* ---------- the prompt: every answer is read as documented --------------------------------------- *)
@@ -169,6 +169,8 @@ Lemma second_pass_ignore_no_exists c bl w cwd w' cwd' e :
 Proof.
   intros CI. revert w cwd. induction bl as [|[[d src] dst] rest IH]; intros w cwd; simpl; [discriminate|].
   destruct (if v_backlog_chdir (c_var c) then chdir (w_fs w) d else Some cwd) as [cw|]; [|intros E; inversion E; subst; reflexivity].
+  destruct (backlog_verify (c_var c) (w_fs w) d src dst) as [ev|] eqn:BV;
+    [intros E; inversion E; subst; exact (backlog_verify_not_exists _ _ _ _ _ _ BV)|].
   destruct (renamer c w cw src dst false) as [w1 [e1|]].
   - destruct (is_file_exists e1) eqn:X.
     + rewrite ignore_continues by assumption. apply IH.
